@@ -50,6 +50,9 @@ class Run:
         self.calls = []
         self.scripts = scripts or {}
         self.it = Interp(env=env, src_env=src_env, cfg=cfg_fn(cfgname), on_call=self.on_call)
+        # helpers extracted after the rules were written are interpreted (see vf.new_fn_resolver)
+        self.it.resolve_fn = vf.new_fn_resolver(facts, (VIS[which][0], "src/validator/mod.rs", "src/validator/control.rs"), cfg_fn(cfgname))
+        self.new_methods = vf.new_methods(facts, *VIS[which])
 
     def on_call(self, kind, name, node, args, recv):
         if kind == "method":
@@ -79,6 +82,18 @@ class Run:
                 return recv[1]
             if name in self.scripts:
                 return self.scripts[name](self, node, recv)
+            if node["r"].get("s") == "self" and name in getattr(self, "new_methods", ()):
+                fi = visitor_fn(self.facts, self.which, name)
+                names = [inp["pat"]["n"] if "pat" in inp and inp["pat"]["k"] == "pid" else None for inp in fi.node["sig"]["inputs"] if "self" not in inp]
+                a = [self.it.eval(x) for x in node["a"]]
+                env = {n: v for n, v in zip(names, a) if n}
+                env["self"] = recv
+                sub = Interp(env=env, src_env=self.it.src_env, cfg=self.it.cfg, on_call=self.it.on_call)
+                sub.resolve_fn = self.it.resolve_fn
+                try:
+                    return sub.block(fi.node["body"])
+                except Return as r:
+                    return r.v
             if name == "resolve_range_bound" and node["r"].get("s") == "self":
                 fi = visitor_fn(self.facts, self.which, "resolve_range_bound")
                 a = self.it.eval(node["a"][0])
@@ -554,6 +569,8 @@ class ObjRun:
             if fi.impl_self == ty and not fi.in_test:
                 self.methods.setdefault(fi.name, []).append(fi)
         self.depth = 0
+        self.inline |= vf.new_methods(facts, file, ty)
+        self.resolve_fn = vf.new_fn_resolver(facts, (file, "src/validator/mod.rs", "src/validator/control.rs"), self.cfg)
 
     def fn(self, name):
         for fi in self.methods.get(name, []):
@@ -582,6 +599,7 @@ class ObjRun:
         if self.depth > 30:
             raise Unknown("call depth")
         it = Interp(env=env, cfg=self.cfg, on_call=None)
+        it.resolve_fn = self.resolve_fn
         it.on_call = lambda kind, nm, node, a, recv, it=it, so=self_obj: self.on_call(it, so, kind, nm, node, a, recv)
         try:
             return it.block(fi.node["body"])
